@@ -449,6 +449,79 @@ func nodeCases(k *hdkeychain.ExtendedKey, shaOracle bool, what string) {
 	}
 }
 
+
+// siblings derives several children from ONE key object in mixed hardened / non-hardened order (and calls
+// String / Address / Neuter in between), checking each against the reference: the result of Child must not
+// depend on the history of the object.
+func siblings(seed []byte, net int, prefix []uint32, idx []uint32, corr bool) {
+	c := ctx{seed: seed, net: net, path: prefix}
+	k, err := derivePriv(seed, net, prefix)
+	n := refDerive(seed, prefix)
+	if err != nil || n == nil {
+		return
+	}
+	vpriv, vpub := nets[net].HDPrivateKeyID[:], nets[net].HDPublicKeyID[:]
+	nk, _ := k.Neuter()
+	var hist []uint32
+	for step, i := range idx {
+		hist = append(hist, i)
+		parF := k.VerifFields()
+		ch, err := k.Child(i)
+		rep.Count("sibling_priv", fmt.Sprint("sp", vh.Hex(seed), pathStr(prefix), hist), true)
+		co := hdref.NewOracle()
+		cn, st, gap := hdref.CKDpriv(co, n, i)
+		if gap.ILZero || gap.ChildZero {
+			continue
+		}
+		if (st == hdref.Valid) != (err == nil) {
+			rep.Violate("C04:child:priv_conforms", "Child validity differs from CKDpriv (several children of one key object)",
+				c.replay(map[string]interface{}{"children_derived_from_the_same_object_in_order": hist, "err": fmt.Sprint(err)}))
+			continue
+		}
+		if err == nil {
+			if d := conforms(ch, cn, vpriv); d != "" {
+				rep.Violate("C04:child:priv_conforms", "private Child differs from CKDpriv (several children of one key object) in: "+d,
+					c.replay(map[string]interface{}{"children_derived_from_the_same_object_in_order": hist, "index": i, "impl": descKey(ch.VerifFields())}))
+			}
+			if want := hdref.String(nil, cn, vpriv); ch.String() != want {
+				rep.Violate("C04:string:conforms", "String() of a sibling differs from the BIP32 serialisation",
+					c.replay(map[string]interface{}{"children_derived_from_the_same_object_in_order": hist, "impl": ch.String(), "bip32": want}))
+			}
+		}
+		if corr {
+			childOracle(co, parF, i)
+			cases.Add(fmt.Sprintf("Child %s %s %d %s", co.Coq(), coqKey(parF), i, coqRes(ch, err)),
+				map[string]interface{}{"op": "Child (sibling of one object)", "seed": vh.Hex(seed), "prefix": pathStr(prefix), "history": hist, "index": i})
+		}
+		// the public object, same order
+		if nk != nil {
+			pc, perr := nk.Child(i)
+			rep.Count("sibling_pub", fmt.Sprint("sq", vh.Hex(seed), pathStr(prefix), hist), i < H)
+			if i >= H {
+				if perr != hdkeychain.ErrDeriveHardFromPublic {
+					rep.Violate("C04:guard:hardpub", "hardened Child of a public key did not return ErrDeriveHardFromPublic", c.replay(map[string]interface{}{"history": hist}))
+				}
+			} else if st == hdref.Valid {
+				qn, qst, qgap := hdref.CKDpub(nil, hdref.Neuter(n), i)
+				if !(qgap.ILZero || qgap.ChildZero) {
+					if (qst == hdref.Valid) != (perr == nil) || (perr == nil && conforms(pc, qn, vpub) != "") {
+						rep.Violate("C04:child:pub_conforms", "public Child differs from CKDpub (several children of one key object)",
+							c.replay(map[string]interface{}{"children_derived_from_the_same_object_in_order": hist, "index": i}))
+					}
+				}
+			}
+		}
+		switch step % 4 { // touch the memoised state between derivations
+		case 0:
+			_ = k.String()
+		case 1:
+			k.Address(nets[net])
+		case 2:
+			k.Neuter()
+		}
+	}
+}
+
 func lenBucket(n int) string {
 	switch {
 	case n < 16:
@@ -731,6 +804,46 @@ func main() {
 	}
 	for _, l := range []int{100, 128, 255, 256, 1000} {
 		walk(r.Bytes(l), r.Intn(len(nets)), nil, opt(0, 0, false, true))
+	}
+
+	// --- every seed length up to 1200 on the implementation (monitor); a few long ones for the model
+	r = rng.Fork("longseeds")
+	for l := 71; l <= 1200; l++ {
+		seed := r.Bytes(l)
+		k, err := hdkeychain.NewMaster(seed, nets[l%len(nets)])
+		rep.Count("master", "m"+vh.Hex(seed), false)
+		rep.Histogram["seedlen_>64"]++
+		if err != hdkeychain.ErrInvalidSeedLen {
+			rep.Violate("C04:guard:seedlen", "NewMaster did not refuse a seed outside 16..64 bytes with ErrInvalidSeedLen",
+				map[string]interface{}{"seed_len": l, "seed": vh.Hex(seed), "err": fmt.Sprint(err), "net": nets[l%len(nets)].Name})
+		}
+		if corr && (l%256 == 16 || l%256 == 40 || l%256 == 64 || l == 1200) {
+			cases.Add(fmt.Sprintf("Master no_oracle %s %d %s", vh.CoqBytes(seed), l%len(nets), coqRes(k, err)),
+				map[string]interface{}{"op": "NewMaster", "seed_len": l, "impl_class": errClass(err)})
+		}
+	}
+
+	// --- several children of ONE key object, mixed hardened / normal order
+	r = rng.Fork("siblings")
+	ns := 12
+	if cfg.Thorough() {
+		ns = 120
+	}
+	if cfg.Search {
+		ns = 1500
+	}
+	for t := 0; t < ns; t++ {
+		var prefix []uint32
+		for j := 0; j < r.Intn(3); j++ {
+			prefix = append(prefix, randIndex(r))
+		}
+		idx := []uint32{uint32(r.Intn(100)), H + uint32(r.Intn(100)), randIndex(r), randIndex(r), 0, H, H - 1, 0xffffffff}
+		r2 := r.Intn(len(idx))
+		idx[0], idx[r2] = idx[r2], idx[0]
+		if t%3 == 0 {
+			idx = append(idx, idx[0], idx[1])
+		}
+		siblings(r.Bytes(16+r.Intn(49)), t%len(nets), prefix, idx, corr && t < 16)
 	}
 
 	// --- random paths with boundary indices
